@@ -46,7 +46,12 @@ class CallMixin:
                 kwargs['**'] = kv
             else:
                 kwargs[kw.arg] = self.eval(kw.value)
-        return self.call(f, args, kwargs, star=star, node=e)
+        save = self._cur_call
+        self._cur_call = e
+        try:
+            return self.call(f, args, kwargs, star=star, node=e)
+        finally:
+            self._cur_call = save
 
     def call(self, f, args, kwargs, star=None, node=None):
         if not isinstance(f, VFunc):
